@@ -16,7 +16,8 @@
 //!                       declared before / after the candidates;  U methods of `template<typename W> struct S`, `S<int> s`;
 //!                       N inside `namespace N`, call `N::f(..)`;  Q the namespace is opened twice;
 //!                       O call from a function inside `namespace N`, the root scope has a hidden exactly matching `f`;
-//!                       K the same one namespace level deeper;  A.<name> user overloads of the intrinsic <name>;
+//!                       K the same one namespace level deeper;  R candidates at the root, call `::f(..)` inside a
+//!                       namespace with its own exactly matching `f`;  A.<name> user overloads of the intrinsic <name>;
 //!                       B.<k>.<name> the intrinsic methods <name> of object type number k
 //!                   | X=<targ>+<targ>.. explicit template arguments of the call (targ = <mods>/<layer> or `#` = a constant)
 //!           run as a generated RSSL program: every candidate returns its own struct `R<id>`, the call is
@@ -122,6 +123,8 @@ pub enum Path {
     NsSplit,
     NsInner,
     NsNested,
+    /// candidates at the root, the call `::f(..)` inside a namespace that has its own exactly matching `f`
+    NsAbsolute,
     Intrinsic(String),
     Object(u32, String),
 }
@@ -164,6 +167,7 @@ fn show_opts(o: &Opts) -> String {
         Path::NsSplit => v.push("P=Q".into()),
         Path::NsInner => v.push("P=O".into()),
         Path::NsNested => v.push("P=K".into()),
+        Path::NsAbsolute => v.push("P=R".into()),
         Path::Intrinsic(n) => v.push(format!("P=A.{}", n)),
         Path::Object(k, n) => v.push(format!("P=B.{}.{}", k, n)),
     }
@@ -194,6 +198,7 @@ fn parse_opts(s: &str) -> Option<Opts> {
                 "Q" => Path::NsSplit,
                 "O" => Path::NsInner,
                 "K" => Path::NsNested,
+                "R" => Path::NsAbsolute,
                 _ => {
                     if let Some(n) = p.strip_prefix("A.") {
                         Path::Intrinsic(n.to_string())
@@ -662,7 +667,7 @@ fn program(cands: &[Cand], args: &[ETy], opts: &Opts, expect: Option<u32>) -> Op
             return None;
         }
     }
-    let hidden = matches!(opts.path, Path::NsInner | Path::NsNested);
+    let hidden = matches!(opts.path, Path::NsInner | Path::NsNested | Path::NsAbsolute);
     for id in ids.iter().filter(|i| **i < 1000) {
         s.push_str(&format!("struct R{} {{ int q; }};\n", id));
     }
@@ -806,6 +811,7 @@ fn program(cands: &[Cand], args: &[ETy], opts: &Opts, expect: Option<u32>) -> Op
         Path::Method | Path::TStruct => format!("s.{}", callee),
         Path::Ns | Path::NsSplit => format!("N::{}", callee),
         Path::Object(..) => format!("g_obj.{}", callee),
+        Path::NsAbsolute => format!("::{}", callee),
         _ => callee,
     };
     let call = format!("{}({})", qualified, exprs.join(", "));
@@ -864,6 +870,12 @@ fn program(cands: &[Cand], args: &[ETy], opts: &Opts, expect: Option<u32>) -> Op
         Path::NsInner => {
             s.push_str(&decoy);
             s.push_str(&format!("namespace N {{\n{}{}}}\nvoid main() {{ N::g(); }}\n", decls.concat(), caller("g", "")));
+        }
+        Path::NsAbsolute => {
+            for d in &decls {
+                s.push_str(d);
+            }
+            s.push_str(&format!("namespace N {{\n{}{}}}\nvoid main() {{ N::g(); }}\n", decoy, caller("g", "")));
         }
         Path::NsNested => {
             s.push_str(&format!(
@@ -1604,6 +1616,7 @@ impl Runner {
                 Path::NsSplit => "namespace-reopened",
                 Path::NsInner => "namespace-inner-hides-root",
                 Path::NsNested => "namespace-nested-hides-outer",
+                Path::NsAbsolute => "absolute-name-skips-inner",
                 Path::Intrinsic(_) => "intrinsic+user",
                 Path::Object(..) => "object-method",
             }
@@ -2100,11 +2113,12 @@ pub fn run(args: &Args, out: &mut Out) {
         Path::NsSplit,
         Path::NsInner,
         Path::NsNested,
+        Path::NsAbsolute,
     ];
     for i in 0..np {
         let (cands, centre) = random_set(&mut rng, &mut hist);
         let path = paths[(i as usize) % paths.len()].clone();
-        let with_defs = matches!(path, Path::Ns | Path::NsSplit | Path::NsInner) && rng.chance(1, 4);
+        let with_defs = matches!(path, Path::Ns | Path::NsSplit | Path::NsInner | Path::NsAbsolute) && rng.chance(1, 4);
         for t in 0..3 {
             let a: Vec<ETy> = if t == 0 {
                 centre.iter().map(|c| ETy { lvalue: true, ty: *c }).collect()
@@ -2113,7 +2127,7 @@ pub fn run(args: &Args, out: &mut Out) {
             };
             r.all_orders(&cands, &a, &Opts { with_defs, path: path.clone(), targs: Vec::new(), form: 0 }, out);
             // every size of the visible set, down to a single inner overload next to the hidden outer one
-            if matches!(path, Path::NsInner | Path::NsNested | Path::MethodIntFirst) {
+            if matches!(path, Path::NsInner | Path::NsNested | Path::NsAbsolute | Path::MethodIntFirst) {
                 for k in 1..cands.len() {
                     r.all_orders(&cands[..k], &a, &Opts { with_defs, path: path.clone(), targs: Vec::new(), form: 0 }, out);
                 }
